@@ -8,7 +8,7 @@ def rpo_index(body):
     return {b: i for i, b in enumerate(body.rpo())}
 
 
-def events(body, pred, prov=None, guards=None, _depth=0):
+def events(body, pred, prov=None, guards=None, _depth=0, inline=None):
     """Calls matching pred, in reverse post-order, with receiver/argument provenance and
     the switch edges that dominate them."""
     prov = prov or Prov(body)
@@ -20,12 +20,16 @@ def events(body, pred, prov=None, guards=None, _depth=0):
         if bi not in idx:
             continue
         name = callee_name(t)
-        if prog is not None and _depth < 3 and is_new_helper(prog, name):
+        forced = inline is not None and prog is not None and _depth < 3 and name in prog.fns and re.search(inline, name) is not None
+        if forced and pred(t):
+            out.append({"bb": bi, "t": t, "name": name, "self_ty": t.get("self_ty"), "args": [prov.operand(a) for a in t["args"]],
+                        "conds": guards.conds(bi), "order": idx[bi]})
+        if forced or (prog is not None and _depth < 3 and is_new_helper(prog, name)):
             # a helper that did not exist when the rules were written: its events happen here, in its order, with the
             # caller's arguments substituted and under the caller's guards plus its own
             cb = prog.fns[name].body
             amap = {i + 1: prov.operand(a) for i, a in enumerate(t["args"])}
-            for k, e in enumerate(events(cb, pred, _depth=_depth + 1)):
+            for k, e in enumerate(events(cb, pred, _depth=_depth + 1, inline=inline)):
                 e2 = dict(e)
                 e2["args"] = [subst_args(a, amap) for a in e["args"]]
                 e2["conds"] = list(guards.conds(bi)) + [((sb if isinstance(sb, tuple) else (cb, sb)), subst_args(d, amap), vals, excl) for (sb, d, vals, excl) in e["conds"]]
